@@ -107,6 +107,9 @@ const("MAX_INITIAL_RESPONSES", "src/action/bootstrap.rs")
 # --- socket.rs
 const("RECV_BUFFER_LEN", "src/socket.rs", pattern=r'let mut buffer = vec!\[0u8;\s*(\d+)\];')
 # --- handler.rs
+const("MAX_VALUES_V4", "src/handler.rs")
+const("MAX_VALUES_V6", "src/handler.rs")
+const("MAX_TOKEN_LEN", "src/action/lookup.rs")
 const("REPLY_NODES_PER_FAMILY", "src/handler.rs",
       pattern=r'\.filter\(\|node\| node\.addr\(\)\.is_ipv4\(\)\)\s*\.take\((\d+)\)')
 const("REPLY_NODES_PER_FAMILY_V6", "src/handler.rs",
